@@ -399,6 +399,11 @@ Model/SrcPreludeG.v; the text generated for every other unit is untouched):
   constructor IPNetwork.__init__:str with its literal defaults; `_ipv4.f(args)` = the function f translated by a unit over
   netaddr/strategy/ipv4.py (an omitted trailing parameter whose default is None and whose Coq type is unit: tt).  A local that
   stays None on the paths where no branch assigns it makes the result optional (`ip = None .. return ip`).
+  IPAddress.format: a parameter declared `darg6` is None | a dialect class with word_fmt (the pair (word_fmt, compact), as the SRCC
+  unit's optcls6) | another object (SrcPreludeG.darg6): `x is [not] None` on it splits into the three constructors, inside the arms
+  `x is None` and `hasattr(x, 'word_fmt')` are decided; `self._module.f(a, kw=b)` on an IPAddress receiver = `if ver =?
+  src_ipv4_version then <ipv4's f> else if ver =? src_ipv6_version then <ipv6's f> else Raise Unsupported`, arguments by each
+  callee's signature (a parameter the callee was translated with type unit gets tt; None / a class for optcls6 = None / Some).
 * netaddr/ip/__init__.py -> pysrc_uniq_gen.v (C05: iter_unique_ips).  `def f(*xs)` with xs declared a list takes the tuple of its
   arguments as one list parameter; a generator of exactly the shape `for x in E: for y in x: yield y` is the list of what it
   yields: py_flat_addrs E for a list E of IPNetwork objects (`for y in x` over an IPNetwork = py_net_addrs, the hand model of
@@ -7704,7 +7709,9 @@ SRCG_UNITS.append(
     # netaddr/ip/__init__.py, what was left: text renderings around the translated __str__ (C01 / C03 / C12), IPNetwork.ipv4 (C16)
     (IPFILE, "pysrc_ipg_gen.v", "", " Base.PyStr Model.SrcPreludeStr Model.AddrText Model.SrcPreludeCtor Model.SrcPreludeSRCE Model.SrcPreludeG",
      [("IPAddress", "__repr__", {}), ("IPNetwork", "__repr__", {}), ("IPRange", "__str__", {}), ("IPRange", "__repr__", {}),
-      ("IPAddress", "__oct__", {}), ("IPNetwork", "ipv4", {})]))
+      ("IPAddress", "__oct__", {}), ("IPNetwork", "ipv4", {}),
+      # `darg6` = the dialect argument of format(): None | a dialect class with word_fmt (the pair (word_fmt, compact)) | another object
+      ("IPAddress", "format", {"dialect": "darg6"})]))
 SRCG_UNITS.append(
     # C05: iter_unique_ips(*args) -- the argument tuple is one list parameter; the generator is the list of what it yields
     (IPFILE, "pysrc_uniq_gen.v", "", " Model.Merge Model.SrcPreludeSRCE Model.SrcPreludeMerge Model.SrcPreludeG",
@@ -7718,12 +7725,12 @@ UNITS = UNITS + SRCG_UNITS
 FILES = FILES + tuple(u[1] for u in SRCG_UNITS)
 SRCG_OUT = tuple(u[1] for u in SRCG_UNITS)
 SRCG_TYPES = {"ikey": "irow", "irec": "irow", "sdict": "sdict", "oui": "Z", "iab": "Z",
-              "orec": "(Z * string * string * (list string) * Z * Z)", "eindex": "eindex", "zpair": "(Z * Z)"}
+              "orec": "(Z * string * string * (list string) * Z * Z)", "eindex": "eindex", "zpair": "(Z * Z)", "darg6": "darg6", "cls6g": "(string * bool)"}
 SRCG_IDCLASS = {"oui": "OUI", "iab": "IAB"}
 COQTY.update(SRCG_TYPES)
 SRCG_RESERVED = set("irow ikeyview IKNet IKRange IKAddr py_ikey_view sdict py_sd_new py_sd_setdefault py_sd_append IANA_INFO "
                     "py_truthy py_fmt_oct py_fmt_hex py_index string append eindex py_eidx_mem py_eidx_get OUI_INDEX IAB_INDEX REGISTRY_FILE "
-                    "py_pair_of_list py_rec_set CSV_READER py_map_og py_triple_of_list py_eidx_setdefault py_eidx_append py_flat_addrs py_net_addrs".split())
+                    "py_pair_of_list py_rec_set CSV_READER py_map_og py_triple_of_list py_eidx_setdefault py_eidx_append py_flat_addrs py_net_addrs darg6 D6None D6Class D6Other".split())
 UNIT_PREAMBLE["pysrc_iana_gen.v"] = (
     "(* IANA_INFO[name] for the four dictionaries the module creates: the rows (key object, record) in insertion order *)\n"
     "Section WithTable.\nVariable IANA_INFO : string -> list irow.\n")
@@ -8114,6 +8121,27 @@ class FnG(FnE):
             if cls is not None:
                 yes = self.class_hasattr(s, cls, t.args[1].value)
                 return self.block((s.body if yes else s.orelse) + rest, env, k, after)
+        neg = isinstance(t, ast.UnaryOp) and isinstance(t.op, ast.Not)
+        h = t.operand if neg else t
+        if (isinstance(h, ast.Call) and dotted(h.func) == "hasattr" and "hasattr" not in env and not self.mod.toplevel("hasattr")
+                and len(h.args) == 2 and not h.keywords and isinstance(h.args[0], ast.Name) and isinstance(h.args[1], ast.Constant)
+                and h.args[1].value == "word_fmt" and env.get(h.args[0].id, ("",))[0] in ("cls6g", "other6")):
+            yes = (env[h.args[0].id][0] == "cls6g") != neg       # a dialect class has word_fmt, the `other object` of darg6 has not
+            return self.block((s.body if yes else s.orelse) + rest, env, k, after)
+        if (isinstance(t, ast.Compare) and len(t.ops) == 1 and isinstance(t.ops[0], (ast.Is, ast.IsNot)) and isinstance(t.left, ast.Name)
+                and isinstance(t.comparators[0], ast.Constant) and t.comparators[0].value is None):
+            x, isnot = t.left.id, isinstance(t.ops[0], ast.IsNot)
+            ty = env.get(x, ("",))[0]
+            if ty == "darg6":                     # split into the three kinds of argument; the test is decided inside each arm
+                hc = self.fresh()
+                nenv, cenv, oenv = dict(env), dict(env), dict(env)
+                nenv[x], cenv[x], oenv[x] = ("none", None), ("cls6g", hc), ("other6", None)
+                return ("omatch", env[x][1], [("D6None", [], self.block([s] + rest, nenv, k, after)),
+                                              ("D6Class", [hc], self.block([s] + rest, cenv, k, after)),
+                                              ("D6Other", [], self.block([s] + rest, oenv, k, after))])
+            if ty in ("none", "cls6g", "other6"):
+                yes = (ty == "none") != isnot
+                return self.block((s.body if yes else s.orelse) + rest, env, k, after)
         return super().if_(s, rest, env, k, after)
 
     def isinstance_(self, s, t, neg, rest, env, k, after):
@@ -8292,6 +8320,54 @@ class FnG(FnE):
             self.restore(snap)
             self.pre = pre0
         return super().ctor(node, cls, env)
+
+    def module_dispatch(self, node, env):
+        """self._module.f(args, kw=..) on an IPAddress receiver: the strategy module is _ipv4 or _ipv6, told apart by their version
+        constants; f is the definition translated by a unit over that module's file, arguments by the callee's signature"""
+        f, alts, kind = node.func, [], None
+        for m in ("ipv4", "ipv6"):
+            if self.mod.imports.get("_" + m) != "netaddr.strategy." + m:
+                bad(node, "self._module.%s(..) in a file that does not import _%s" % (f.attr, m))
+            d = None
+            for t in BY_MODULE_ALL.get("netaddr.strategy." + m, ()):
+                if any(k[0] is None and k[1] == f.attr for k in t.specs):
+                    d = t.get(None, f.attr, node)
+            if d is None or FILES.index(d.file) > FILES.index(self.file) or d.optional or d.mutating:
+                bad(node, "_%s.%s is not translated (or not usable here)" % (m, f.attr))
+            self.depfns.append(d)
+            names = [a.arg for a in d.f.args.args]
+            given = dict(zip(names, node.args))
+            for kw in node.keywords:
+                if kw.arg is None or kw.arg in given or kw.arg not in names:
+                    bad(node, "unsupported keyword argument")
+                given[kw.arg] = kw.value
+            if len(node.args) > len(names) or set(given) != set(names) or len(names) != len(d.params):
+                bad(node, "argument list of %s" % d.cname)
+            terms = []
+            for x, (_, pty) in zip(names, d.params):
+                npre = len(self.pre)
+                ty, t = self.ex(given[x], env)
+                if len(self.pre) != npre and alts:
+                    bad(node, "argument of self._module.%s(..) that can raise" % f.attr)
+                if coqty(pty, node) == "unit" and ty in ("none", "cls6g"):
+                    t = "tt"                                 # a parameter the callee never reads (translated with type unit)
+                elif pty == "optcls6" and ty in ("none", "cls6g"):
+                    t = "None" if ty == "none" else "(Some %s)" % t
+                else:
+                    unify(node, ty, pty, "argument of %s" % d.cname)
+                terms.append(t)
+            if d.__dict__.get("srcc_be"):
+                self.g_uses_be = True
+                terms.insert(0, "be")
+            kd = d.kind
+            if kind is not None:
+                unify(node, kd, kind, "results of the two strategy modules")
+            kind = kd
+            call = "(%s)" % " ".join([d.cname] + terms)
+            alts.append(("src_%s_version" % m, call if d.outcome else "Ok %s" % call))
+        ver = self.attrs["self._module.version"][1]
+        return ("out", kind, "(if (%s =? %s) then %s else if (%s =? %s) then %s else Raise Unsupported)" % (
+            ver, alts[0][0], alts[0][1], ver, alts[1][0], alts[1][1]))
 
     def strategy_call(self, node, env):
         """_ipv4.f(args) / _ipv6.f(args) for the strategy modules the file imports: the function f translated by a unit over that
@@ -8497,6 +8573,9 @@ class FnG(FnE):
         if (isinstance(f, ast.Attribute) and isinstance(f.value, ast.Name) and f.value.id in ("_ipv4", "_ipv6")
                 and self.tr.out == "pysrc_ipg_gen.v"):
             return self.strategy_call(node, env)
+        if (isinstance(f, ast.Attribute) and dotted(f.value) == "self._module" and self.tr.out == "pysrc_ipg_gen.v" and self.recv == "IPAddress"
+                and "self" not in env and node.keywords):
+            return self.module_dispatch(node, env)
         if (name == "DictDotLookup" and name not in env and self.mod.imports.get(name) == "netaddr.core.DictDotLookup" and len(node.args) == 1
                 and not node.keywords):
             ty, t = self.ex(node.args[0], env)               # DictDotLookup(d): the attribute view of the dict d, represented by d itself
